@@ -339,6 +339,8 @@ def r03_3(ctx):
         order_ok = [a for a, _ in setters][:1] == ["set_value_type"]
         ctx.check("set_dest_type re-conversion", ok and order_ok, "set_value_type(T) then set_src(Conv(type(dest),src))", str(setters), fn_where(idx, fi))
 
+    declaration_retypes_its_variable(ctx)
+
     # --- arguments: cast_arg_list
     r = Runner(idx)
     box = {}
@@ -532,6 +534,40 @@ def init_a_cast_kind_independence(ctx):
                 differing.append(f"{c} {'s' if ss else 'u'}{sw}->{'s' if ts else 'u'}{tw}: {sorted(map(str, res))[:1]}")
     ctx.check("init_a_cast wraps every kind of operand alike and leaves the operand's own type alone", not differing and base and all(all(t == ("Cast", False, True) for t in v if t != "RAISE") for v in base.values()),
               "a new Cast node around the operand; operand.value_type untouched", "; ".join(differing[:3]) or str({str(k): sorted(map(str, v)) for k, v in (base or {}).items()})[:160], fn_where(idx, fi))
+
+
+def declaration_retypes_its_variable(ctx):
+    """`T x = <init>;`: the assignment to the declared variable - alone or behind the pending effects of its initialiser - is re-typed to T
+    and its source converted, whatever flags the variable's provisional type object carries (a provisional type borrowed from a hybrid's
+    value carries the flag of hybrid temporaries)"""
+    idx = get_index(ctx.env)
+    for shape in ("Assignment", "Sequence[pending, Assignment]", "Sequence[pending, pending, Assignment]"):
+        for groups in (("PURE",), ("PURE", "HYBRID_LVAR"), ("PURE", "HYBRID_LVAR", "UNSIGNED")):
+            r = Runner(idx)
+            seen = []
+            r.summarised = r.summarised | {"set_dest_type"}
+            r.s_set_dest_type = lambda interp, args, kwargs, seen=seen: seen.append((args, kwargs))
+            box = {}
+
+            def items(shape=shape, groups=groups):
+                seen.clear()
+                dest = r.pure("x", vt=vt_case("tprov", True, 32, groups), cls="Variable", type=EnumV("PureType", "LOCAL", 1))
+                assig = AObj("Assignment", {"dest": dest, "src": r.pure("init", vt=vt_case("tprov2", True, 32, groups))}, label="assig", opaque=True)
+                box["assig"] = assig
+                if shape == "Assignment":
+                    it = assig
+                else:
+                    pend = [AObj("PostfixIncDec", {}, label=f"pending{k}", opaque=True) for k in range(shape.count("pending"))]
+                    it = AObj("Sequence", {"effects": pend + [assig], "effect_ops": pend + [assig]}, label="seq", opaque=True)
+                box["it"] = it
+                return [vt_case("T", True, 64), it]
+            fi, outs = r.run("declaration", items)
+            good = [o for o in outs if o.kind != "raise"]
+            calls = [(lab(a[0]) if a else "?", lab(a[1]) if len(a) > 1 else lab(k.get("t"))) for a, k in seen]
+            ok = bool(good) and len(good) == len(outs) and all(o.value is box["it"] for o in good)
+            ctx.check(f"declaration[T, {shape}], provisional type flags {'|'.join(groups)}: the variable's assignment is re-typed to T", ok and calls and set(calls) == {("assig", "T")},
+                      "set_dest_type(assig, T), items[1] returned", f"calls={calls}, outcomes={[lab(o.value)[:30] if o.kind != 'raise' else 'RAISE' for o in outs]}", fn_where(idx, fi),
+                      nontrivial=(groups != ("PURE",)))
 
 
 def declared_type_callbacks(ctx):
